@@ -10,7 +10,7 @@ SPEC = {
     "correspondences": [
         {"dialect": "mime-scan", "quick_n": 8000, "thorough_n": 300000},
         {"dialect": "mime-split", "quick_n": 3000, "thorough_n": 100000},
-        {"dialect": "mime-walk", "quick_n": 3000, "thorough_n": 60000},
+        {"dialect": "mime-walk", "quick_n": 3000, "thorough_n": 60000, "judge": "judge-c12-walk"},
         {"dialect": "mime-struct", "quick_n": 2500, "thorough_n": 40000, "judge": "judge-c12-struct"},
         {"dialect": "sexp", "quick_n": 4000, "thorough_n": 100000},
     ],
@@ -20,10 +20,14 @@ SPEC = {
          "thorough_args": ["-n", "150000", "-deep", "thorough", "-driver", _DRIVER],
          "timeout": 2400},
     ],
-    "rule": "correspondence: distinct op lines, non-trivial = the judge (Lean reader on the implementation's "
-            "ENVELOPE/BODY/BODYSTRUCTURE + QuoteOK on every strconv.Quote result) classified the message as nested; "
-            "oracle: one evaluation per message / address string / nesting bomb run in a child process, "
-            "non-trivial = more than one MIME section or a deep-nesting case",
+    "rule": "correspondence: distinct op lines, non-trivial = the judge (mime-struct: Lean reader on the implementation's "
+            "ENVELOPE/BODY/BODYSTRUCTURE + QuoteOK on every strconv.Quote result + BODYSTRUCTURE as deep and with as many "
+            "lists as the model's; mime-walk: walked section tree as deep and as large as the model's) classified the "
+            "message as nested; every run starts with the directed size/depth boundary messages of harness/d_mimedeep.go "
+            "(nesting 1..401 around 16/32/64/100/128/200/256/400, multiparts up to 513 parts, long boundaries / header "
+            "lines / parameter lists); oracle: one evaluation per message / address string / nesting bomb / boundary "
+            "shape (nesting to 1025, 10000 parts; BODYSTRUCTURE = tree, Walk shape, FETCH BODY[deepest path]) run in a "
+            "child process, non-trivial = more than one MIME section or a deep-nesting / shape case",
     "trusted_base": [
         "Lean 4.33.0 kernel; axioms limited to propext, Classical.choice, Quot.sound (audited per theorem)",
         "reference rendering of a MIME tree GluonModel/Spec/MimeRender.lean and expected writer calls GluonModel/Spec/MimeStructure.lean (what 'built from a tree' means in sections_of_built_message / structure_of_built_message_partial)",
@@ -34,17 +38,24 @@ SPEC = {
         "the abstract header results (NewHeader ok, ContentType, Header.Get, ParseMediaType, ParseAddressList, strconv.Quote) "
         "handed to the model are read off the real code through the public API by the generator (harness/d_mime*.go)",
         "Go s-expression checker harness/d_mimestruct.go (sxParse), tied to the Lean reader by the sexp dialect",
+        "facts translator harness/facts_mime.go (go/ast): control skeleton of rfc822 Section.Children/load/Walk/Part/parse and "
+        "imap structure/childStructures/singlePartStructure, pinned by the theorem section_tree_source_shape",
+        "shape builder harness/d_mimedeep.go (the tree a boundary-shaped message is built from; expected structure, section count, deepest path)",
     ],
     "assumptions": [
         "QuoteOK: strconv.Quote returns a double-quoted string without unescaped double quote (checked on every string of every generated message by judge-c12-struct, not proved: strconv is not modelled)",
         "Go int arithmetic does not overflow (message literals are capped at 30 MB)",
         "crash-freedom and termination of rfc5322 (address/comment grammar), mime.ParseMediaType and rfc822.NewHeader are NOT covered by theorem (arbitrary functions in the model); searched by the c12structure oracle in a child process (finding #9: parseComment recursion overflows the stack at ~1.2e7 nested comments)",
         "'structure = the MIME tree the message was built from' (CRLF line ends, no preamble/epilogue, hypotheses Good/Fresh/DetOK): sections_of_built_message holds for every tree; structure_of_built_message_partial needs the named hypothesis NoEmbMulti (no message/rfc822 part holding a multipart message), structure_flattens_embedded_multipart is the concrete counter-example of the full statement (known finding, oracle class rfc822-multipart-flattened)",
-        "time is not bounded by the theorems: nesting depth d costs O(d^2)-O(d^3) scanner passes (observed, reported)",
+        "time is not bounded by the theorems: nesting depth d costs O(d^2)-O(d^3) scanner passes (observed, reported: "
+        "NewParsedMessage needs 1.2 s for 400 nested message/rfc822, 17 s for 1025, 75 s for 2049 alternating levels; 20 s for 10000 nested multiparts)",
+        "no limit on nesting depth / number of parts / lengths in the section-tree code: stated for every tree by the theorems, tied to the "
+        "source by the regenerated fact Facts.mimeTreeSkeleton and searched on the real code up to depth 1025 (thorough 4097) and 10000 parts",
     ],
     "explanation": "Lean theorems for all byte strings: scanner/Split/sections terminate without panic and ranges nest; for every well-built MIME tree the sections are the tree (BoundaryFresh); "
                    "the list writer's output is read back as the same tree for every call tree under QuoteOK, hence BODY/"
                    "BODYSTRUCTURE/ENVELOPE are well-formed whatever the header/address parsers return; models tied to the "
-                   "real code by five correspondence dialects; child-process oracle on garbage, mutated, built and deeply "
+                   "real code by five correspondence dialects that start with directed size/depth boundary messages (judges state tree-depth-differs); "
+                   "the source skeleton of the section-tree functions is a regenerated fact; child-process oracle on garbage, mutated, built and deeply "
                    "nested messages with the Lean reader as the judge of every produced text",
 }
